@@ -64,6 +64,18 @@ json observe(S &s) {
             break; }
         default: { auto x = d.asDataFrameDimension(); r["k"] = "frame"; auto ci = x.columnIndex(); r["col"] = ci ? (long) *ci : -1;
             nix::DataFrame df = x.data(); if (!df || df.id() != s.df.id()) o["issues"].push_back("data-frame dimension lost its frame");
+            // label / unit / column type of the dimension are those of the frame's column (or of the frame when no column is set)
+            try {
+                if (x.size() != s.df.rows()) o["issues"].push_back("data-frame dimension size differs from the frame's row count");
+                std::vector<nix::Column> cols = s.df.columns();
+                for (unsigned q = 0; q < cols.size(); q++) {
+                    if (x.label(q) != cols[q].name) o["issues"].push_back("data-frame dimension label(col) differs from the column name");
+                    if (x.unit(q) != cols[q].unit) o["issues"].push_back("data-frame dimension unit(col) differs from the column unit");
+                    if (x.columnDataType(q) != cols[q].dtype) o["issues"].push_back("data-frame dimension columnDataType(col) differs");
+                }
+                if (ci) { if (x.label() != cols[*ci].name || x.unit() != cols[*ci].unit || x.columnDataType() != cols[*ci].dtype) o["issues"].push_back("data-frame dimension default column attributes differ"); }
+                else if (x.label() != s.df.name()) o["issues"].push_back("data-frame dimension without column: label is not the frame's name");
+            } catch (const std::exception &e) { o["issues"].push_back(std::string("data-frame dimension getter threw: ") + e.what()); }
             break; }
         }
         o["dims"].push_back(r);
